@@ -276,7 +276,11 @@ def r_name_table_single_writer(r, prog):
     def registered_unless_primitive():
         import guards as _g
         from mirlib import const_int
-        brs = branches_on_call(ane, lambda c: c.name() == 'is_some_and' and 'get(arg1.lookup_table,' in vexpr(ane, c.args[0]))
+        key = vexpr(ane, ins[0].args[1])
+        # the entry that is tested is the one under the very name about to be registered (not the bare identifier, not anything else)
+        brs = branches_on_call(ane, lambda c: c.name() == 'is_some_and' and vexpr(ane, c.args[0]) == 'get(arg1.lookup_table,%s)' % key)
+        if not brs and branches_on_call(ane, lambda c: c.name() == 'is_some_and' and 'get(arg1.lookup_table,' in vexpr(ane, c.args[0])):
+            return False
         if not brs:
             # the same test written without a closure (a match on the looked-up entry): the blocks from which the registration can no longer
             # be reached are entered only on edges that require the entry found under this very name to be a primitive
